@@ -28,6 +28,7 @@ def handle (line : String) : String :=
       toHex (if skip == 0 then aesCtr k iv d else aesCtrAt k iv skip d)
     | _, _, _, _ => "bad-op"
   | ["hmac256", k, m] => hex2 (fun k m => toHex (hmacSha256 k m)) k m
+  | ["sha512", a] => hex1 (fun x => toHex (sha512 x)) a
   | _ => "bad-op"
 
 def main (args : List String) : IO Unit :=
